@@ -201,45 +201,8 @@ func c10r3(c *Ctx, id string) {
 	rb := w.Method("couchbase", "cbMembership", "rebalance")
 	c.need(rb != nil, id, "couchbase.cbMembership.rebalance")
 	c.see(rb)
-	for _, a := range allocsOf(rb, model) {
-		tab, _ := allocTable(a)
-		tot := w.Origin(tab["TotalMembers"])
-		inst := "param(" + rb.Params[1].Name() + ")"
-		okTot := tot == "len("+inst+")"
-		// MemberNumber is phi(0 | idx+1) where idx ranges over the same slice and the match is *instance.ID == string(h.id)
-		okNum := false
-		var why string
-		if phi, ok := tab["MemberNumber"].(*ssa.Phi); ok {
-			hasZero, hasIdx := false, false
-			for _, e := range phi.Edges {
-				if cst, ok := e.(*ssa.Const); ok && cst.Value != nil && cst.Value.ExactString() == "0" {
-					hasZero = true
-				}
-				if b, ok := e.(*ssa.BinOp); ok && b.Op == token.ADD {
-					if c1, ok := b.Y.(*ssa.Const); ok && c1.Value != nil && c1.Value.ExactString() == "1" {
-						if s0, ok := inductionStart(b.X); ok && s0 == 0 {
-							// the equality that selects this index compares instances[idx].ID with the own id
-							for _, g := range guardsOf(b.Block()) {
-								o := w.Origin(g.Cond)
-								if g.Branch && strings.Contains(o, inst+"[") && strings.Contains(o, ".ID == ") && strings.Contains(o, "recv.id") {
-									hasIdx = true
-								}
-							}
-							why = w.Origin(b)
-						}
-					}
-				}
-			}
-			okNum = hasZero && hasIdx
-		}
-		// panic when self is absent: the literal is built only when number != 0
-		okPanic := guardedBy(a.Block(), false, func(v ssa.Value) bool {
-			b, ok := v.(*ssa.BinOp)
-			return ok && b.Op == token.EQL && b.X == tab["MemberNumber"] && w.Origin(b.Y) == "const(0)"
-		})
-		c.Check(okTot && okNum && okPanic, id, "couchbase-numbering", a.Pos(), "MemberNumber ← index of self + 1 ("+why+"), TotalMembers ← "+tot+", panic when self is absent",
-			fmt.Sprintf("Couchbase numbering: total %s (ok %v), member number index-of-self+1 (ok %v), guarded by self-found (ok %v)", tot, okTot, okNum, okPanic))
-	}
+	_ = model
+	c10CouchbaseNumbering(c, id, rb)
 	// leader-assigned
 	sd := w.Method("servicediscovery", "serviceDiscovery", "StartMonitor")
 	c.need(sd != nil && len(sd.AnonFuncs) == 1, id, "servicediscovery.StartMonitor loop")
@@ -369,12 +332,50 @@ func c10r4(c *Ctx, id string) {
 	w := c.W
 	// comparator closures: funcs with two parameters returning bool whose body compares a join time
 	n := 0
+	// the two numbering paths: the Couchbase monitor round and the leader's GetAll, each with its synchronous helpers
+	role := map[*ssa.Function]string{}
+	for rname, ent := range map[string]*ssa.Function{"couchbase-monitor": w.Method("couchbase", "cbMembership", "monitor"), "leader-GetAll": w.Method("servicediscovery", "serviceDiscovery", "GetAll")} {
+		if ent == nil {
+			continue
+		}
+		for f := range w.syncCallees(ent, 2, false) {
+			if f.Pkg == ent.Pkg {
+				role[f] = rname
+			}
+		}
+	}
 	for _, fn := range w.ModFuncs {
 		if fn.Parent() == nil || fn.Signature.Results().Len() != 1 || !isBool(fn.Signature.Results().At(0).Type()) || len(fn.Params) != 2 {
 			continue
 		}
 		par := rootFn(fn)
-		if !(fname(par) == "(*couchbase.cbMembership).monitor" || fname(par) == "(*servicediscovery.serviceDiscovery).GetAll") {
+		if role[par] == "" {
+			continue
+		}
+		// only closures handed to a sort are comparators
+		sorted := false
+		for _, f := range withAnon(par) {
+			allInstrs(f, func(in ssa.Instruction) {
+				cc := callOf(in)
+				if cc == nil || cc.StaticCallee() == nil {
+					return
+				}
+				callee := cc.StaticCallee()
+				if callee.Origin() != nil {
+					callee = callee.Origin()
+				}
+				isSort := strings.Contains(callee.Name(), "Sort") || (callee.Pkg != nil && callee.Pkg.Pkg.Path() == "sort" && strings.HasPrefix(callee.Name(), "Slice"))
+				if !isSort {
+					return
+				}
+				for _, a := range cc.Args {
+					if closureOf(a) == fn {
+						sorted = true
+					}
+				}
+			})
+		}
+		if !sorted {
 			continue
 		}
 		// result = BinOp of two values
@@ -398,7 +399,7 @@ func c10r4(c *Ctx, id string) {
 		// normal forms: f(i) < f(j)  or  f(j) > f(i), where f(j) is f(i) with the parameter replaced
 		sub := func(s, from, to string) string { return strings.ReplaceAll(s, from, to) }
 		okAsc := (b.Op == token.LSS && strings.Contains(x, pi) && sub(x, pi, pj) == y) || (b.Op == token.GTR && strings.Contains(y, pi) && sub(y, pi, pj) == x)
-		c.Check(okAsc, id, "comparator@"+fname(par), fn.Pos(), "less(i,j) ⇔ "+x+" "+b.Op.String()+" "+y+" (ascending join time)", "sort comparator is not 'join time of i < join time of j': "+x+" "+b.Op.String()+" "+y)
+		c.Check(okAsc, id, "comparator@"+role[par], fn.Pos(), "less(i,j) ⇔ "+x+" "+b.Op.String()+" "+y+" (ascending join time)", "sort comparator is not 'join time of i < join time of j': "+x+" "+b.Op.String()+" "+y)
 	}
 	if n < 2 {
 		c.Undecided(id, "floor", 0, "only %d join-order comparators found (2 confirmed by hand)", n)
@@ -508,4 +509,108 @@ func c10r5(c *Ctx, id string) {
 	if n == 0 {
 		c.Fail(id, "cas-retry", mon.Pos(), "a CAS conflict on the index document is not retried")
 	}
+}
+
+// c10CouchbaseNumbering evaluates cbMembership.rebalance for 1..3 live instances over every equality pattern between
+// the instances' ids and the member's own id: the announced numbering is (index of the first instance carrying the
+// own id) + 1 of len(instances); the process stops when the member is not in the list; nothing is announced otherwise.
+func c10CouchbaseNumbering(c *Ctx, id string, rb *ssa.Function) {
+	w := c.W
+	inst := w.NamedType("couchbase", "Instance")
+	model := w.NamedType("membership", "Model")
+	isCh := w.Method("membership", "Model", "IsChanged")
+	c.need(inst != nil && model != nil && isCh != nil, id, "couchbase.Instance / membership.Model / Model.IsChanged")
+	recv, ip := rb.Params[0].Name(), rb.Params[1].Name()
+	for k := 1; k <= 3; k++ {
+		atoms := []string{"self"}
+		for i := 0; i < k; i++ {
+			atoms = append(atoms, fmt.Sprintf("inst%d.ID", i))
+		}
+		kk := k
+		announced := map[*State]*cell{}
+		h := &Harness{Fn: rb, Groups: []Group{{Atoms: atoms, EqOnly: true}}, Bools: []string{"changed"}, Quiet: quietLog,
+			NoInline: map[string]bool{fname(isCh): true},
+			Args: map[string]func(st *State) AV{ip: func(st *State) AV {
+				var cs []*cell
+				for i := 0; i < kk; i++ {
+					cs = append(cs, &cell{typ: inst, sym: fmt.Sprintf("inst%d", i)})
+				}
+				return avSlice{cells: cs}
+			}},
+			Input: func(st *State, sym string, t types.Type) AV {
+				if sym == recv+".id" {
+					return avStr{sym: "self"} // the own id, whatever its representation
+				}
+				return nil
+			},
+			Oracle: func(st *State, name string, args []AV, res *types.Tuple) ([]AV, bool) {
+				switch {
+				case name == fname(isCh):
+					if p, ok := args[0].(avPtr); ok {
+						announced[st] = p.c
+					}
+					return []AV{avBool{st.B("changed")}}, true
+				case name == "errors.New":
+					return []AV{avIface{sym: "selfMissing"}}, true
+				}
+				return nil, false
+			},
+		}
+		c.oae(id, fmt.Sprintf("couchbase-numbering[%d instances]", k), rb.Pos(), h, func(st *State, out *Outcome) string {
+			want := 0
+			for i := 0; i < kk; i++ {
+				if st.Eq(fmt.Sprintf("inst%d.ID", i), "self") {
+					want = i + 1
+					break
+				}
+			}
+			pubs := 0
+			for _, e := range out.Trace {
+				if strings.HasSuffix(e.Name, ".Publish") {
+					pubs++
+				}
+			}
+			if want == 0 {
+				if !out.Panicked {
+					return "the member is not among the live instances but the process goes on"
+				}
+				if pubs != 0 {
+					return "a numbering is announced although the member is not among the live instances"
+				}
+				return ""
+			}
+			if out.Panicked {
+				return "stops although the member is instance " + fmt.Sprint(want)
+			}
+			m := announced[st]
+			if m == nil {
+				return "no numbering is compared with the one in effect"
+			}
+			num, tot := cellFieldVal(m, "MemberNumber"), cellFieldVal(m, "TotalMembers")
+			if n, ok := num.(avInt); !ok || n.atom != "" || int(n.conc) != want {
+				return fmt.Sprintf("member number %s, expected %d (position of the own id in join order)", avString(num), want)
+			}
+			if n, ok := tot.(avInt); !ok || n.atom != "" || int(n.conc) != kk {
+				return fmt.Sprintf("group size %s, expected %d", avString(tot), kk)
+			}
+			if (pubs == 1) != st.B("changed") || pubs > 1 {
+				return fmt.Sprintf("%d announcements with changed=%v", pubs, st.B("changed"))
+			}
+			return ""
+		}, "MemberNumber = 1 + index of the first live instance carrying the own id; TotalMembers = number of live instances; stops when absent; announced iff it differs from the numbering in effect")
+	}
+}
+
+// cellFieldVal: the value held by the named field of a struct cell built during an abstract run (nil if unset).
+func cellFieldVal(c *cell, field string) AV {
+	st, ok := c.typ.Underlying().(*types.Struct)
+	if !ok {
+		return nil
+	}
+	for i := 0; i < st.NumFields(); i++ {
+		if st.Field(i).Name() == field && i < len(c.fields) && c.fields[i] != nil {
+			return c.fields[i].val
+		}
+	}
+	return nil
 }
